@@ -470,7 +470,13 @@ def rule_run_prologue(ctx: Ctx, rule: str) -> None:
     sites = [s for s in q.stmts(lambda n: isinstance(n, ast.Expr) and isinstance(n.value, ast.YieldFrom) and norm_src(n.value.value) == 'self._walk()')]
     heads = [n for n in q.cfg.nodes if n.kind == 'for' and norm_src(n.ast.iter) == 'self._walk()']
     if len(sites) + len(heads) != 1:
-        raise AnalysisError('imatch: iteration of self._walk() not found')
+        # no iteration inside imatch (e.g. `return self._walk()`): then imatch is not a generator and its prologue runs when it is called,
+        # not when the run starts -- a violation of the per-run prologue, not an obstacle to the analysis
+        gen = any(isinstance(n, (ast.Yield, ast.YieldFrom)) for n in walk_no_nested(im.node))
+        ctx.ob(rule, f'{WM}:WcMatch.imatch/prologue', False, repo.loc(WM, im.node), 'on_reset() and _skipped = 0 dominate the walk, once each, inside the generator',
+               'imatch does not iterate self._walk() itself' + ('' if gen else ': it is not a generator, so the prologue runs at call time'),
+               witness='a = imatch(); b = imatch(); list(a); list(b): each run must reset the skipped counter when it starts')
+        return
     h = q.node_of(sites[0]) if sites else heads[0].id
     resets = q.calls(lambda s: s == 'self.on_reset')
     zero = q.stmts(lambda n: isinstance(n, ast.Assign) and norm_src(n) == 'self._skipped = 0')
@@ -562,5 +568,9 @@ def rule_yield_passthrough(ctx: Ctx, rule: str) -> None:
            'as expected' if not bad_y else sorted(set(bad_y))[0], witness='values returned by the hooks must be passed through unchanged')
     ctx.ob(rule, f'{WM}:WcMatch._walk/abort-tests', not bad_a, site, 'is_aborted() is the first thing asked in every directory and the last in every directory / file iteration',
            'as expected' if not bad_a else sorted(set(bad_a))[0], witness='kill() before or during a walk stops it at the next directory / file boundary without visiting anything further')
+    # what counts as "the check raised": any Exception -- the handlers around _valid_folder / _valid_file catch exactly `Exception`
+    hn = sorted({str(e[3]) for p in walk_rows(repo) for e in p.events if e[0] == 'except'})
+    ctx.ob(rule, f'{WM}:WcMatch._walk/handlers-catch-Exception', hn == ['Exception'], site, "the handlers of the walker's loops are `except Exception`", str(hn),
+           witness='a compare_file / on_validate_file that raises KeyError must be routed to on_error and on_skip, not escape from match()')
     ctx.ob(rule, f'{WM}:WcMatch._walk/one-hook-per-file', not bad_h, site, 'per file: on_match iff valid, else _skipped += 1 and on_skip; on_error exactly when the check raised',
            f'{n_file} rows agree' if not bad_h else sorted(set(bad_h))[0], witness='get_skipped() + len(matches) == number of files seen')
